@@ -371,11 +371,16 @@ def run(sc):
                 elif outcome != "ok":
                     hits.hit("C16", "identity.decode", f"get_module_info({op['slot']}) raised {type(res).__name__}: {res} "
                              f"({res.__cause__!r})", api="get_module_info", field="exception")
+                    # the module is there and answers: the helper's request did not reach it (C14: helpers deliver to the target)
+                    hits.hit("C14", "helper", f"get_module_info({op['slot']}) of an occupied slot raised {type(res).__name__}: {res}; "
+                             f"log: {[(r.get('kind'), r.get('slot'), r.get('route_error')) for r in world.oplog if r.get('kind') in ('mr', 'unconnected_send')][:3]}",
+                             what="module_unreached")
                 else:
                     cmp_identity(res, expected_identity(mod.identity, lib), hits, "get_module_info")
                     rt_identity(res, hits, "get_module_info")
                     recs = [r for r in world.oplog if r.get("kind") == "mr" and r.get("cls") == 1]
-                    if not recs or recs[-1].get("slot") != op["slot"] or recs[-1].get("transport") != "unconnected_send":
+                    if not recs or recs[-1].get("slot") != op["slot"] or recs[-1].get("transport") != "unconnected_send" \
+                            or recs[-1].get("mobj") is not mod:
                         hits.hit("C14", "helper", f"get_module_info({op['slot']}) was answered by slot "
                                  f"{recs[-1].get('slot') if recs else None} via {recs[-1].get('transport') if recs else None}",
                                  what="module_route")
